@@ -841,6 +841,15 @@ fn dump_const<'tcx>(tcx: TyCtxt<'tcx>, did: DefId) -> Option<String> {
             return Some(format!("{},\"bytes\":{}}}", head, js(&hex(b))));
         }
     }
+    if let ty::Adt(..) = ty.kind() {
+        // newtype-of-integer constants (bitflags values and the like) evaluate to a scalar: record their bits
+        if let ConstValue::Scalar(sc) = val {
+            if let Ok(si) = sc.try_to_scalar_int() {
+                let bits = si.to_bits(si.size());
+                return Some(format!("{},\"v\":{},\"adt\":true}}", head, bits));
+            }
+        }
+    }
     if let ty::Array(e, len) = ty.kind() {
         if *e == tcx.types.u8 {
             // by-value byte array constant (e.g. chunk ids `[u8; 4]`)
